@@ -50,11 +50,20 @@ Lemma nonempty_false : forall A (l : list A), nonempty l = false <-> l = [].
 Proof. intros A [|a l]; cbn; split; congruence. Qed.
 
 (* ---------- framework sets ---------- *)
-Lemma api_set_spec : forall e rq x, In x (api_set e rq) <-> api_allows rq x /\ In x (existing e).
+Lemma entry_selects_spec : forall e a s, entry_selects e a s = true <-> entry_allows e a s.
+Proof. intros e [n|x] s; cbn; apply Nat.eqb_eq. Qed.
+
+Lemma api_selects_spec : forall e l s, api_selects e l s = true <-> exists a, In a l /\ entry_allows e a s.
+Proof.
+  intros e l s. unfold api_selects. rewrite existsb_exists. split; intros [a [Ha H]]; exists a; (split; [exact Ha|]);
+    apply entry_selects_spec; exact H.
+Qed.
+
+Lemma api_set_spec : forall e rq x, In x (api_set e rq) <-> api_allows e rq x /\ In x (existing e).
 Proof.
   intros e rq x. unfold api_set, api_allows. destruct (api rq) as [|a l] eqn:E.
   - split; [intros H; split; [now left | exact H] | intros [_ H]; exact H].
-  - rewrite filter_In, mem_In. split.
+  - rewrite filter_In, api_selects_spec. split.
     + intros [H1 H2]. split; [right; exact H2 | exact H1].
     + intros [[H | H] H2]; [discriminate | split; assumption].
 Qed.
@@ -276,7 +285,7 @@ Proof.
 Qed.
 
 (* ---------- request-level errors ---------- *)
-Lemma api_set_empty : forall e rq, api_set e rq = [] -> forall x, In x (existing e) -> ~ api_allows rq x.
+Lemma api_set_empty : forall e rq, api_set e rq = [] -> forall x, In x (existing e) -> ~ api_allows e rq x.
 Proof.
   intros e rq E x Hx Ha. assert (H : In x (api_set e rq)) by (apply api_set_spec; auto). rewrite E in H. exact H.
 Qed.
@@ -297,13 +306,11 @@ Proof.
   { intros H; inversion H; subst. cbn. apply andb_true_iff in E2. destruct E2 as [Ea E2].
     apply negb_true_iff, nonempty_false in E2. split.
     - intros Ea'. rewrite Ea' in Ea. discriminate.
-    - intros x Hx Hex. apply (api_set_empty e rq E2 x Hex). right. exact Hx. }
+    - intros a x Ha' Hex Hal. apply (api_set_empty e rq E2 x Hex). right. exists a. split; assumption. }
   destruct (match ffw rq with Some x => negb (mem x (api_set e rq)) | None => false end) eqn:E3.
   { intros H; inversion H; subst. cbn. destruct (ffw rq) as [y|]; [|discriminate]. exists y. split; [reflexivity|].
     apply negb_false_iff, mem_In in E1. apply negb_true_iff, mem_false in E3. split; [exact E1|].
-    rewrite api_set_spec in E3. unfold api_allows in E3. split.
-    - intros Ea. apply E3. split; [left; exact Ea | exact E1].
-    - intros Hx. apply E3. split; [right; exact Hx | exact E1]. }
+    rewrite api_set_spec in E3. intros Hal. apply E3. split; [exact Hal | exact E1]. }
   destruct (negb (nonempty (filter (applicable rq) u))) eqn:E4; [|discriminate].
   intros H; inversion H; subst. cbn. apply negb_true_iff, nonempty_false in E4. apply no_applicable. exact E4.
 Qed.
@@ -321,9 +328,9 @@ Proof.
     + destruct Her as [Ha Hn]. apply andb_false_iff in E2. destruct E2 as [E2 | E2].
       * apply nonempty_false in E2. contradiction.
       * apply negb_false_iff, nonempty_spec in E2. destruct E2 as [x Hx]. apply api_set_spec in Hx.
-        destruct Hx as [[Hx | Hx] Hex]; [contradiction | exact (Hn x Hx Hex)].
-    + destruct Her as [x [Ef [Hex [Ha Hn]]]]. rewrite Ef in E3. apply negb_false_iff, mem_In, api_set_spec in E3.
-      destruct E3 as [[E3 | E3] _]; contradiction.
+        destruct Hx as [[Hx | [a [Ha' Hal]]] Hex]; [contradiction | exact (Hn a x Ha' Hex Hal)].
+    + destruct Her as [x [Ef [Hex Hn]]]. rewrite Ef in E3. apply negb_false_iff, mem_In, api_set_spec in E3.
+      destruct E3 as [E3 _]; contradiction.
     + apply negb_false_iff, nonempty_spec in E4. destruct E4 as [c Hc]. apply filter_In in Hc. destruct Hc as [Hu Ha].
       apply applicable_spec in Ha. exact (Her c Hu Ha).
   - intros H. destruct (precheck e u rq) as [er|] eqn:Hp; [|reflexivity].
@@ -482,7 +489,7 @@ Qed.
 
 (* witness: parent P (any framework) and child C (only framework 0), both matching "f": the child is the only group left
    after preferring subclasses, the implementation rejects the request as ambiguous *)
-Definition wit_e := {| existing := [0; 1; 2]; available := [0; 1; 2] |}.
+Definition wit_e := {| existing := [0; 1; 2]; available := [0; 1; 2]; cname := fun x => x |}.
 Definition wit_P := {| cid := 0; supers := []; accepts := ["f"]; dom := "default_domain"; rule := None; idxcols := None |}.
 Definition wit_C := {| cid := 1; supers := [0]; accepts := ["f"]; dom := "default_domain"; rule := Some [0]; idxcols := None |}.
 Definition wit_u := [wit_P; wit_C].
